@@ -14,8 +14,9 @@ denominator `den=` (`scaleQ`).
 * `findwalks` (distance.py) : slice 0 = 0, slice 1 = C, slice q = (slice q−1)·C.
 * `subgraph_centrality` (centrality.py) : the diagonal of `Σ_{m<T} A^m/m!` together with an explicit
   bound of the tail of the exponential series.
-* `eigenvector_centrality_und` : the eigen-solver is an *oracle*; the model only certifies a vector
-  handed to it (norm, minimum, Rayleigh quotient, residual, Collatz–Wielandt bounds), exactly.
+* `eigenvector_centrality_und` : the eigen-solver is an *oracle*; `eigPost` is the code after the call
+  (`argmax`, `abs`), and `eigCert` certifies a vector handed to it (norm, minimum, Rayleigh quotient,
+  residual, Collatz–Wielandt bounds), exactly.  `subPost` is `dot(vecs*vecs, exp(vals))` after `eigh`.
 
 LAPACK (`eig`, `eigh`, `inv`, `solve`) is outside the model: the linear systems are solved by exact
 Gauss–Jordan elimination and **every solution is re-checked by the model itself** (`isInvOf`,
@@ -265,6 +266,28 @@ def eigCert {n : Nat} (A : AMat Int n) (v : QVec n) : Except WErr EigCert :=
       else none
     .ok { nrm2, vmin, ray, res2, bounds }
 
+/-! ## post-processing of the eigen-solver output, as coded (the decomposition itself is an oracle input) -/
+
+def qabs (a : Rat) : Rat := if a < 0 then -a else a
+
+/-- `np.argmax(vals)`: scan left to right, replace the current best only by a strictly larger value -/
+def argmaxFrom {n : Nat} (vals : QVec n) : List (Fin n) → Fin n → Fin n
+  | [], b => b
+  | k :: l, b => argmaxFrom vals l (if vals[b] < vals[k] then k else b)
+
+/-- `eigenvector_centrality_und` after `vals, vecs = linalg.eig(CIJ)`: `i = argmax(vals); abs(vecs[:, i])` -/
+def eigPost {n : Nat} (vals : QVec n) (vecs : QMat n) : Except WErr (Fin n × QVec n) :=
+  match List.finRange n with
+  | [] => .error .index
+  | i0 :: rest =>
+    let i := argmaxFrom vals rest i0
+    .ok (i, Vector.ofFn fun r => qabs (vecs.get r i))
+
+/-- `subgraph_centrality` after `vals, vecs = linalg.eigh(CIJ)` and `ev = np.exp(vals)` (libm is an oracle too):
+`np.dot(vecs * vecs, ev)` -/
+def subPost {n : Nat} (vecs : QMat n) (ev : QVec n) : QVec n :=
+  Vector.ofFn fun i => fsum fun k => vecs.get i k * vecs.get i k * ev[k]
+
 /-! ## driver -/
 
 def showRat (q : Rat) : String := if q.den == 1 then toString q.num else s!"{q.num}/{q.den}"
@@ -284,6 +307,17 @@ def parseRat (s : String) : Option Rat :=
 def parseQVec (n : Nat) (s : String) : Option (QVec n) := do
   let xs ← (s.splitOn ",").mapM parseRat
   if h : xs.length = n then some (Vector.ofFn fun i => xs[i.val]'(by have := i.isLt; omega)) else none
+
+def parseQMat (n : Nat) (s : String) : Option (QMat n) := do
+  let xs ← (s.splitOn ",").mapM parseRat
+  if h : xs.length = n * n then
+    some (AMat.ofFn fun i j => xs[i.val * n + j.val]'(by
+      have hi := i.isLt; have hj := j.isLt
+      calc i.val * n + j.val < i.val * n + n := by omega
+        _ = (i.val + 1) * n := by rw [Nat.add_mul, Nat.one_mul]
+        _ ≤ n * n := Nat.mul_le_mul_right n hi
+        _ = xs.length := h.symm))
+  else none
 
 def parseIVec (n : Nat) (s : String) : Option (Vector Int n) := do
   let xs ← parseInts s
@@ -325,6 +359,16 @@ def runOp (op : String) (kv : List (String × String)) : Option String := do
     match expTail (infNorm A) T with
     | .error e => some (err e)
     | .ok b => some s!"S={showQVec (expDiag A T)} bound={showRat b}"
+  | "eigpost" =>
+    let vals ← parseQVec n (← lookup kv "vals")
+    let vecs ← parseQMat n (← lookup kv "vecs")
+    match eigPost vals vecs with
+    | .error e => some (err e)
+    | .ok (i, v) => some s!"i={i.val} v={showQVec v}"
+  | "subpost" =>
+    let vecs ← parseQMat n (← lookup kv "vecs")
+    let ev ← parseQVec n (← lookup kv "ev")
+    some s!"S={showQVec (subPost vecs ev)}"
   | "eigcert" =>
     let v ← parseQVec n (← lookup kv "v")
     match eigCert A v with
